@@ -412,6 +412,12 @@ def cmd_check(pid, tier, repo, only, keep, jobs):
             log("UNDECIDED property=%s lost anchor: %s" % (pid, ex))
             return 2
         shutil.copy(os.path.join(repo, "Cargo.lock"), os.path.join(src, "Cargo.lock"))
+        # textual anchors an argument of this property rests on (each regex must match exactly one line)
+        for rel, rx in P.get("anchors", []):
+            n = sum(1 for l in open(os.path.join(repo, rel)).read().split("\n") if re.search(rx, l))
+            if n != 1:
+                log("UNDECIDED property=%s lost anchor: %r matches %d lines of %s (expected 1)" % (pid, rx, n, rel))
+                return 2
         kani_obs = [o for o in obs if o.get("backend", "kani") == "kani"]
         native_obs = [o for o in obs if o.get("backend") == "native"]
         smt_obs = [o for o in obs if o.get("backend") == "smt"]
